@@ -105,6 +105,14 @@ int main() {
                 }
                 printf( "%s %d %s %d %d %d %d %s\n", kk, a, a ? buf : "-", ( int )err.severity(), ( int )restbuf.size(), eof, fail, w.empty() ? "-" : w.c_str() );
             }
+        } else if( k == 'K' ) {
+            // SkipInstance(): severity it returns and what is left of the stream
+            std::istringstream in( data );
+            std::string skipped;
+            Severity sev = SkipInstance( in, skipped );
+            ErrorDescriptor ret;
+            ret.severity( sev );
+            tail( in, "K", sev == SEVERITY_NULL ? 1 : 0, "-", ret );
         } else if( k == 'T' ) {
             std::istringstream in( data );
             ErrorDescriptor err;
